@@ -148,6 +148,11 @@ func (bucket *TypedBucket) GetBucketByKey(key []byte) *TypedBucket {
 	if bucket.HasError() {
 		return bucket
 	}
+	if bucket.Bucket == nil {
+		// an extended child store hands its entity strategy a bucket without a bbolt bucket for an entity which has
+		// no data in that store: like its plain fields (see getTyped), its lists and maps are absent
+		return nil
+	}
 	child := bucket.Bucket.Bucket(key)
 	if child == nil {
 		return nil
